@@ -18,6 +18,8 @@ Opts == {[dl |-> d, stop |-> Pol(p), nb |-> nb, rin |-> ri, rout |-> 0, rerr |->
         {[dl |-> 0, stop |-> NoStop, nb |-> FALSE, rin |-> 0, rout |-> 0, rerr |-> 0, input |-> -1, term |-> 0, self |-> FALSE, prog |-> "/nonexistent"]}
 Sinks == {<<<<0, 0>>, <<0, 0>>>>} \cup {<<<<k, -5>>, <<0, 0>>>> : k \in SinkFails} \cup {<<<<0, 0>>, <<k, -7>>>> : k \in SinkFails}
          \cup {<<<<0, 0>>, <<k, EPIPE>>>> : k \in SinkFails}
+         \* the library's own discarding sinks on piped streams: the output is still read (the child is never left blocked on a full pipe)
+         \cup {<<<<0, 0, "discard">>, <<0, 0, "discard">>>>, <<<<0, 0, "null">>, <<0, 0, "null">>>>, <<<<0, 0, "discard">>, <<0, 0>>>>}
 
 Next ==
   \/ ncalls = 0 /\ \E o \in Opts, sk \in Sinks : RunCall(1, o, sk)
